@@ -7,7 +7,7 @@
 (* the format transcription (CellCodec, RowsFormat, EventFormat, JsonSem,  *)
 (* GTID modules).  A failed monitor prints <<"MONFAIL", json>>.            *)
 (***************************************************************************)
-EXTENDS CellCodec, Json, GTIDText
+EXTENDS JsonSem, Json, GTIDText
 
 G == INSTANCE GTIDSet WITH GDefects <- {}
 Ma == INSTANCE MariaGTID WITH MDefects <- {}
@@ -16,8 +16,8 @@ CONSTANTS TraceFile, Props
 
 Trace == ndJsonDeserialize(TraceFile)
 
-VARIABLES l, nviol, ncase
-tvars == <<l, nviol, ncase>>
+VARIABLES l, nviol, ncase, tn      \* tn: the (type code, type name) pairs seen so far in serialised transactions (C20)
+tvars == <<l, nviol, ncase, tn>>
 
 F(mon, e, what) == [mon |-> mon, id |-> e.id, fam |-> e.fn,
                     info |-> [what |-> what, cls |-> e.cls, typ |-> (IF "typ" \in DOMAIN e THEN e.typ ELSE 0),
@@ -274,8 +274,81 @@ MonIsValid(e) ==
     <<e.obs.valid = IsValidSpec(e.buf), "IsValid disagrees with: full 19-byte header and length field = buffer length">>,
     <<~e.obs.accpanic, "a header accessor panicked on an accepted buffer">>})
 
+(***************************************************************************)
+(* C14: JSON columns.                                                      *)
+(***************************************************************************)
+MonJson(e) ==
+  LET o == e.obs IN
+  IF o.panic THEN {F("C14.panic", e, "decoding a JSON value panicked")}
+  ELSE IF o.err THEN {F("C14.error", e, "decoding a well-formed JSON value returned an error")}
+  ELSE (IF o.len = o.rawlen THEN {} ELSE {F("C14.length", e, "consumed length differs from the length of the JSON cell")}) \cup
+       (IF o.parseErr # "" THEN {F("C14.text", e, "printed text is not of the documented form: " \o o.parseErr)}
+        ELSE IF Denotes(o.tree, e.doc) THEN {}
+        ELSE {[mon |-> "C14.denotes", id |-> e.id, fam |-> e.fn,
+               info |-> [what |-> "printed text does not denote the stored document", cls |-> e.cls, typ |-> 245, metab |-> <<>>,
+                         node |-> FirstDiff(o.tree, e.doc)]]})
+
+(***************************************************************************)
+(* C20: Transaction -> JSON.                                               *)
+(***************************************************************************)
+\* RFC 3629 well-formedness of a byte string
+RECURSIVE IsUtf8(_)
+IsUtf8(b) ==
+  IF b = <<>> THEN TRUE
+  ELSE LET c == b[1]
+           cont(i) == Len(b) >= i /\ b[i] >= 128 /\ b[i] <= 191
+       IN IF c <= 127 THEN IsUtf8(Tail(b))
+          ELSE IF c >= 194 /\ c <= 223 THEN cont(2) /\ IsUtf8(Drop(b, 2))
+          ELSE IF c = 224 THEN cont(2) /\ b[2] >= 160 /\ cont(3) /\ IsUtf8(Drop(b, 3))
+          ELSE IF (c >= 225 /\ c <= 236) \/ c = 238 \/ c = 239 THEN cont(2) /\ cont(3) /\ IsUtf8(Drop(b, 3))
+          ELSE IF c = 237 THEN cont(2) /\ b[2] <= 159 /\ cont(3) /\ IsUtf8(Drop(b, 3))
+          ELSE IF c = 240 THEN cont(2) /\ b[2] >= 144 /\ cont(3) /\ cont(4) /\ IsUtf8(Drop(b, 4))
+          ELSE IF c >= 241 /\ c <= 243 THEN cont(2) /\ cont(3) /\ cont(4) /\ IsUtf8(Drop(b, 4))
+          ELSE IF c = 244 THEN cont(2) /\ b[2] <= 143 /\ cont(3) /\ cont(4) /\ IsUtf8(Drop(b, 4))
+          ELSE FALSE
+\* texts survive verbatim when they are valid UTF-8
+Same(got, want) == IsUtf8(want) => got = want
+
+ColOK(o, c) ==
+  /\ Same(o.name, c.name)
+  /\ o.isEmpty = (c.st = "absent")
+  /\ o.isNull = ~c.hasdata                       \* SQL NULL (and absent) <-> JSON null, never the empty string
+  /\ (c.hasdata => Same(o.data, c.data))
+RowsOK(orows, rows) ==
+  /\ Len(orows) = Len(rows)
+  /\ \A r \in 1..Len(rows) : Len(orows[r]) = Len(rows[r]) /\ \A c \in 1..Len(rows[r]) : ColOK(orows[r][c], rows[r][c])
+
+\* (type code, type name) pairs of a serialised transaction
+RowsPairs(trows, orows) ==
+  UNION {{<<trows[r][c].typ, orows[r][c].type>> : c \in 1..Min2(Len(trows[r]), Len(orows[r]))} : r \in 1..Min2(Len(trows), Len(orows))}
+TypePairs(e) ==
+  UNION {RowsPairs(e.tx.evs[j].vals, e.obs.evs[j].vals) \cup RowsPairs(e.tx.evs[j].ids, e.obs.evs[j].ids)
+         : j \in 1..Min2(Len(e.tx.evs), Len(e.obs.evs))}
+\* the type name identifies the type: code -> name is a function and it is injective
+NamesConsistent(pairs) == \A a, b \in pairs : (a[1] = b[1]) = (a[2] = b[2])
+
+MonTxJson(e) ==
+  LET o == e.obs  t == e.tx IN
+  IF o.panic \/ o.err THEN {F("C20.marshal", e, "serialising a transaction failed")}
+  ELSE IF ~o.wellformed THEN {F("C20.wellformed", e, "the output is not well-formed JSON")}
+  ELSE Chk("C20.structure", e, {
+         <<o.shape, "members missing or of the wrong JSON type">>,
+         <<o.now.off = t.now.off /\ o.next.off = t.next.off /\ Same(o.now.file, t.now.file) /\ Same(o.next.file, t.next.file), "positions">>,
+         <<Len(o.evs) = Len(t.evs), "number / order of events">>,
+         <<NamesConsistent(TypePairs(e) \cup tn), "the type name does not identify the column type">>}) \cup
+       UNION {
+         LET oe == o.evs[j]  te == t.evs[j] IN
+         Chk("C20.event", e, {
+           <<oe.typ = te.typ, "event kind">>,
+           <<Same(oe.db, te.db) /\ Same(oe.tbl, te.tbl), "table name">>,
+           <<te.sql # <<>> => (oe.hasSql /\ Same(oe.sql, te.sql)), "SQL text">>,
+           <<te.sql = <<>> => (oe.hasRows /\ RowsOK(oe.vals, te.vals) /\ RowsOK(oe.ids, te.ids)), "columns: name / absent flag / NULL vs empty / data">>})
+         : j \in 1..Min2(Len(o.evs), Len(t.evs))}
+
 Mon(e) ==
   CASE e.fn = "rows" -> MonRows(e)
+    [] e.fn = "txjson" -> MonTxJson(e)
+    [] e.fn = "json" -> MonJson(e)
     [] e.fn = "tablemap" -> MonTableMap(e)
     [] e.fn \in {"ev.fde", "ev.rotate", "ev.query", "ev.xid", "ev.intvar", "ev.rand"} -> MonEvent(e)
     [] e.fn = "isvalid" -> MonIsValid(e)
@@ -293,7 +366,7 @@ Mon(e) ==
     [] e.fn \in {"intbatch", "datebatch", "timebatch"} -> UNION {MonBatch(e, p) : p \in Props}
     [] OTHER -> {}
 
-TInit == l = 1 /\ nviol = 0 /\ ncase = 0
+TInit == l = 1 /\ nviol = 0 /\ ncase = 0 /\ tn = {}
 
 TNext ==
   /\ l <= Len(Trace)
@@ -303,8 +376,9 @@ TNext ==
        THEN LET bad == Mon(e) IN
               /\ ncase' = ncase + 1
               /\ nviol' = nviol + Cardinality(bad)
+              /\ tn' = IF e.fn = "txjson" /\ e.obs.wellformed /\ ~e.obs.err THEN tn \cup TypePairs(e) ELSE tn
               /\ \A b \in bad : PrintT(<<"MONFAIL", ToJson(b)>>)
-       ELSE UNCHANGED <<nviol, ncase>>
+       ELSE UNCHANGED <<nviol, ncase, tn>>
 
 TSpec == TInit /\ [][TNext]_tvars
 
